@@ -10,7 +10,7 @@ REQUIRED_THEOREMS = ['Props.C16.im2col_variants_agree', 'Props.C16.col2im_varian
                      'Props.C16.fold_unfold_coverage']
 RULE = ('geometry grid: N, C in 1..2, H, W in 1..6, kernel 1..3, stride 1..3, dilation 1..2, padding 0..d(k-1)/2+1 per axis independently '
         '(non-square, stride > kernel, windows that do not tile), int and tuple kernel sizes, both layouts (N x CkHkW x L and the 2-D '
-        'column matrix), arbitrary pad values, integer-valued data so equality is exact; each of the three im2col and three col2im '
+        'column matrix), arbitrary pad values, integer-valued data so equality is exact; every input array is handed over in one of the memory layouts C, Fortran, strided view, negative-stride view, window into a larger buffer; each of the three im2col and three col2im '
         'implementations and extract/place_windows is compared with its own model definition, ~8 % geometries without a window '
         '(must raise). Extra implementation-side checks: the three variants agree bit for bit, <im2col x, y> = <x, col2im y>, '
         'fold(unfold(ones)) = coverage counts. Non-trivial: at least 2 windows and an overlapping or dilated geometry.')
@@ -70,7 +70,8 @@ def cases(rng, tier):
           out.append({'fn': 'place', 'g': g, 'w': wv, 'wsh': wsh, 'malformed': malformed, 'lines': [f"conv place {gl(g)} {show_ints(wsh)} {show_floats(wv)}"]})
         out.append({'fn': 'relations', 'g': g, 'x': x, 'y': y, 'pad': pad, 'malformed': malformed, 'lines': [f"conv im2col spec {gl(g)} {fbits(0.0)} 1 {show_floats(x)}"]})
     for c in out:
-        c['desc'] = c['lines'][0][:400]
+        c['layout'] = rng.pick(LAYOUTS)
+        c['desc'] = f"layout={c['layout']} " + c['lines'][0][:400]
     return out
 
 
@@ -85,26 +86,50 @@ def _args(g, int_k=False):
     return k, g['d'], g['s'], g['p']
 
 
+LAYOUTS = ['C', 'C', 'F', 'strided', 'reversed', 'offset']
+
+
+def lay(a, layout):
+    """an array with the same values as `a` in another memory layout (the model is value-level; the implementation reads
+    memory through strides, so the layout is part of its input space)"""
+    a = np.ascontiguousarray(a)
+    if layout == 'F':
+        return np.asfortranarray(a)
+    if layout == 'strided' and a.ndim:                       # every second element of a twice-as-long last axis
+        big = np.full(a.shape[:-1] + (2 * a.shape[-1],), 55.0)
+        big[..., ::2] = a
+        return big[..., ::2]
+    if layout == 'reversed' and a.ndim:                      # negative stride on the last axis
+        return np.ascontiguousarray(a[..., ::-1])[..., ::-1]
+    if layout == 'offset' and a.ndim:                        # a window into a larger buffer
+        big = np.full(tuple(n + 2 for n in a.shape), -77.0)
+        sl = tuple(slice(1, n + 1) for n in a.shape)
+        big[sl] = a
+        return big[sl]
+    return a
+
+
 def _run(c):
     ct = _ct()
+    L = c.get('layout', 'C')
     g = c['g']
     shape = (g['N'], g['C'], g['H'], g['W'])
     int_k = (sum(g['k']) + g['H']) % 2 == 0          # exercise the documented int kernel_size
     k, d, s, p = _args(g, int_k)
     if c['fn'] == 'im2col':
-        x = np.array(c['x']).reshape(shape)
+        x = lay(np.array(c['x']).reshape(shape), L)
         f = {'idx': ct.im2col, 'loop': ct.im2col_v2, 'view': ct.im2col_fast}[c['variant']]
         return f(x, k, d, s, p, c['pad'], as_unfold=c['unf'])
     if c['fn'] == 'col2im':
-        y = np.array(c['y']).reshape(c['csh'])
+        y = lay(np.array(c['y']).reshape(c['csh']), L)
         f = {'idx': ct.col2im, 'loop': ct.col2im_v2, 'view': ct.col2im_fast}[c['variant']]
         return f(y, shape, k, d, s, p)
     if c['fn'] == 'extract':
-        return ct.extract_windows(np.array(c['x']).reshape(shape), g['k'], g['s'], g['p'], g['d'], c['pad'])
+        return ct.extract_windows(lay(np.array(c['x']).reshape(shape), L), g['k'], g['s'], g['p'], g['d'], c['pad'])
     if c['fn'] == 'place':
-        return ct.place_windows(np.array(c['w']).reshape(c['wsh']), shape, g['k'], g['s'], g['p'], g['d'])
+        return ct.place_windows(lay(np.array(c['w']).reshape(c['wsh']), L), shape, g['k'], g['s'], g['p'], g['d'])
     # relations: spec line answered by im2col_fast with zero padding; extra checks in compare
-    return ct.im2col_fast(np.array(c['x']).reshape(shape), g['k'], g['d'], g['s'], g['p'], 0.0, as_unfold=True)
+    return ct.im2col_fast(lay(np.array(c['x']).reshape(shape), L), g['k'], g['d'], g['s'], g['p'], 0.0, as_unfold=True)
 
 
 def impl(c):
@@ -119,14 +144,14 @@ def _relations(c):
     ct = _ct()
     g = c['g']
     shape = (g['N'], g['C'], g['H'], g['W'])
-    x = np.array(c['x']).reshape(shape)
+    x = lay(np.array(c['x']).reshape(shape), c.get('layout', 'C'))
     k, d, s, p = g['k'], g['d'], g['s'], g['p']
     for unf in (True, False):
         a = [f(x, k, d, s, p, c['pad'], as_unfold=unf) for f in (ct.im2col, ct.im2col_v2, ct.im2col_fast)]
         if not (np.array_equal(a[0], a[1]) and np.array_equal(a[0], a[2])):
             return f'the three im2col implementations differ (as_unfold={unf})'
     u = ct.im2col_fast(x, k, d, s, p, 0.0, as_unfold=True)
-    y = np.array(c['y']).reshape(u.shape)
+    y = lay(np.array(c['y']).reshape(u.shape), c.get('layout', 'C'))
     b = [f(y, shape, k, d, s, p) for f in (ct.col2im, ct.col2im_v2, ct.col2im_fast)]
     if not (np.array_equal(b[0], b[1]) and np.array_equal(b[0], b[2])):
         return 'the three col2im implementations differ'
@@ -168,6 +193,8 @@ def distribution(cases):
         k = c['fn'] + ':' + c.get('variant', '')
         d[k] = d.get(k, 0) + 1
     d['malformed'] = sum(1 for c in cases if c['malformed'])
+    for c in cases:
+        d['layout:' + c.get('layout', 'C')] = d.get('layout:' + c.get('layout', 'C'), 0) + 1
     return d
 
 
